@@ -30,6 +30,7 @@ template <class T> struct ident { using type = T; };
 struct no_type_member {};
 template <class T> struct is_cplx : std::false_type {}; template <class T> struct is_cplx<std::complex<T>> : std::true_type {};
 template <bool V, int I> struct bt : std::integral_constant<bool, V> {};
+template <int I> struct boom { static_assert(I < 0, "boom<I> must never be instantiated"); static constexpr bool value = true; };
 struct TF { template <class I> int operator()(I) const { return 1; } };
 struct FF { template <class I> double operator()(I) const { return 2.; } };
 using namespace xtl;
@@ -127,7 +128,7 @@ def gen_lists(w, tier):
                    "conditions " + "".join("T" if c else "F" for c in conds))
 
 
-ARITH = ["bool", "char", "signed char", "unsigned char", "short", "unsigned short", "int", "unsigned int", "long",
+ARITH = ["bool", "char", "signed char", "unsigned char", "wchar_t", "char16_t", "char32_t", "short", "unsigned short", "int", "unsigned int", "long",
          "unsigned long", "long long", "unsigned long long", "float", "double", "long double"]
 FLOATS = ["float", "double", "long double"]
 
@@ -203,6 +204,15 @@ def gen_logic(w, tier):
                                 R, name, "type is the deciding argument", sc)
                     w.must_hold("std::is_base_of<bt<%s, %d>, std::%s<%s>>::value" % ("true" if vals[dec] else "false", dec, name, args),
                                 R, name, "oracle self-check (std::%s has the same deciding argument)" % name, sc)
+    # short circuit: the arguments behind the deciding one are never instantiated ([meta.logical]: "does not require the instantiation of
+    # Bj::value for j > i") - boom<I>::value cannot be instantiated at all
+    for n in range(2, 5 if tier == "quick" else 6):
+        for k in range(0, n - 1):
+            for name, neutral in (("conjunction", True), ("disjunction", False)):
+                args = ["bt<%s, %d>" % ("true" if neutral else "false", i) for i in range(k)] + ["bt<%s, %d>" % ("false" if neutral else "true", k)] + \
+                       ["boom<%d>" % i for i in range(k + 1, n)]
+                w.must_hold("xtl::%s<%s>::value == %s" % (name, ", ".join(args), "false" if neutral else "true"), R, name,
+                            "arguments behind the deciding one are not instantiated", "%d arguments, decided by #%d" % (n, k))
     for v in (True, False):
         w.must_hold("xtl::negation<bt<%s, 0>>::value == %s" % ("true" if v else "false", "false" if v else "true"), R, "negation", "value", str(v))
         w.must_hold("xtl::negation<bt<%s, 0>>::value == std::negation<bt<%s, 0>>::value" % (("true" if v else "false",) * 2), R, "negation", "value equals std::negation", str(v))
